@@ -1,6 +1,7 @@
 import MitmVerif.Model.C41_Spec
 import MitmVerif.Model.C41_Lib
 import MitmVerif.Model.C41_Url
+import MitmVerif.Model.C41_Host
 import Driver.Proto
 open MitmVerif Driver MitmVerif.C41
 
@@ -57,20 +58,12 @@ def mkPrim (t : Tab) (alt : Bool) : Prim where
   urlHostport := fun u => askO t alt "uh" [u]
   urlPretty := fun u h => askB t alt "pu" [u, optArg h]
 
-/-- the CPython answers the URL transcription still needs (keys: UTF-8 of the code-point string) -/
-def mkUrlPrim (t : Tab) (alt : Bool) : UrlPrim where
-  validBracketed := fun x => match t.lookup (key "vb" [toText x]) with
-    | some v => v = "01"
-    | none => alt
-  idnaRt := fun x => (askO t alt "id" [toText x]).map toStr
-  validHost := fun x => match t.lookup (key "vh" [toText x]) with
-    | some v => v = "01"
-    | none => alt
-  validAuthHost := fun x => match t.lookup (key "va" [toText x]) with
-    | some v => v = "01"
-    | none => alt
+/-- the IDNA slow-path answers the host transcription still needs -/
+def mkHostPrim (t : Tab) (alt : Bool) : HostPrim where
+  idnaDecode := fun raw => askO t alt "idd" [raw]
+  idnaEncode := fun s => askO t alt "ide" [toText s]
 
-def mkLib (t : Tab) (alt : Bool) : Lib := C41.mkLibU (mkPrim t alt) (mkUrlPrim t alt)
+def mkLib (t : Tab) (alt : Bool) : Lib := C41.mkLibH (mkPrim t alt) (mkHostPrim t alt)
 
 def parseHdrs (s : String) : Option Hdrs :=
   if s = "-" then some [] else
@@ -119,6 +112,18 @@ def step (line : String) : String :=
       let b := run t true f
       if a = b then a else "lib-miss"
     | _, _, _, _, _, _, _, _, _ => "bad-op"
+  | ["hf", x, tab] =>
+    -- tie of the host transcriptions alone: _check_bracketed_host, is_valid_host(str), the IDNA round trip
+    match hexOr x with
+    | some x =>
+      let t := parseTab tab
+      let one := fun (alt : Bool) =>
+        let H := mkHostPrim t alt
+        let s := toStr x
+        let rt := match idnaRtT H s with | some r => showBytes (toText r) | none => "!"
+        s!"{if validBracketedT s then 1 else 0} {if validHostU H s then 1 else 0} {rt}"
+      if one false = one true then one false else "lib-miss"
+    | none => "bad-op"
   | _ => "bad-op"
 
 end C41Driver
